@@ -146,6 +146,7 @@ func sweepOps() []op {
 	o = append(o, structuralOps(true)...)
 	o = append(o, op{Kind: "ain", From: "E", Tok: "coin", Dests: []dest{{"W1", 0, "50c"}}, Fee: "cap"}) // the honest base of the whale's variants
 	o = append(o, wrapOps(true)...)
+	o = append(o, wordWrapOps(true)...)
 	return o
 }
 
@@ -173,6 +174,34 @@ func wrapOps(hidden bool) []op {
 				op{Kind: "hostile", Var: "wrap-fee", Arg: arg, W: "W0", Tok: "coin", Ring: ring, To: "W2.0", Amt: "all", Fee: "min"},
 				op{Kind: "hostile", Var: "wrap-aout", Arg: arg, W: "W0", Tok: "iss", From: "A", Ring: ring, To: "C", Amt: "5c", Fee: "min"},
 			)
+		}
+	}
+	return o
+}
+
+// wordWrapOps: every account-signed kind, sent by the whale (so that no balance check masks anything), honest and with
+// the gas price resp. the amount moved by each machine-word offset. vm=false: only what needs no contract (genesis level).
+func wordWrapOps(vm bool) []op {
+	bases := []op{
+		{Kind: "xfer", From: "E", To: "B", Amt: "1c"},
+		{Kind: "tokxfer", From: "E", To: "B", Tok: "gen", Amt: "7c"},
+		{Kind: "tokxfer", From: "E", To: "B", Tok: "coin", Amt: "1c"},
+	}
+	if vm {
+		bases = append(bases,
+			op{Kind: "create", From: "E", Code: "vault", Amt: "2c"},
+			op{Kind: "call", From: "E", To: "store", Amt: "3c"},
+			op{Kind: "call", From: "E", To: "reverter", Amt: "3c"},
+			op{Kind: "tokcall", From: "E", Tok: "gen", To: "vault-deposit", Amt: "3c"},
+		)
+	}
+	var o []op
+	for _, b := range bases {
+		o = append(o, b)
+		for _, w := range wordWraps {
+			p, a := b, b
+			p.Price, a.AmtWrap = w, w
+			o = append(o, p, a)
 		}
 	}
 	return o
@@ -239,7 +268,8 @@ func genesisOps() []op {
 	o = append(o, hostileAin()...)
 	o = append(o, structuralOps(false)...)
 	o = append(o, op{Kind: "ain", From: "E", Tok: "coin", Dests: []dest{{"W1", 0, "50c"}}, Fee: "cap"})
-	return append(o, wrapOps(false)...)
+	o = append(o, wrapOps(false)...)
+	return append(o, wordWrapOps(false)...)
 }
 
 func histAcct(quick bool) []op {
